@@ -13,6 +13,7 @@ s_slice i a b | s_setslice i a b syms | s_add i j | s_rev i | s_eq i j | s_copy 
 s_setcode i dtype codes | s_setarr i a b dtype codes | s_valid i
 k_fuse n k dtype codes | k_split n k code | k_kmers n k spacing dtype codes | k_enc A k syms | k_dec A k code
 c_tbl aa starts | c_load id | c_default | c_tr complete met dna | c_get codon
+c_derive_map TGA=W,AGA=* | c_derive_starts codons | c_show | c_show2 | c_tr2 complete met dna
 ```
 -/
 namespace BiotiteModel.Driver.C03
@@ -21,6 +22,7 @@ open BiotiteModel BiotiteModel.C03 BiotiteModel.Proto
 structure State where
   regs : List (Seq String) := []
   table : Option CodonTable := none
+  table2 : Option CodonTable := none      -- the table derived last (`c_derive_*`)
 
 def toks (s : String) : List String := if s == "_" || s == "" then [] else s.splitOn ","
 def showToks (xs : List String) : String := if xs.isEmpty then "_" else joinWith "," xs
@@ -69,6 +71,21 @@ def showSyms (s : Seq String) : String :=
   match s.symbols with
   | .ok xs => showToks xs
   | .error e => "!" ++ e.toString
+
+def translateLine (tbl : Option CodonTable) (complete met dna : String) : String :=
+  match tbl with
+  | none => "ERR:notable"
+  | some t =>
+    match nucNew Gen.C03.nucUnamb Gen.C03.nucAmb (stringToBytes dna) with
+    | .error e => errS e
+    | .ok s =>
+      if s.alph ≠ Gen.C03.nucUnamb then errS .alphabetError
+      else if complete == "1" then
+        showE ((translateComplete t s.codes).map fun p => bytesToString (p.filterMap (prot[·]?)))
+      else
+        match indexOf? prot 42, indexOf? prot 77 with
+        | some stopC, some metC => showE ((translateOrfs t stopC metC (met == "1") s.codes).map showOrfs)
+        | _, _ => errS .alphabetError
 
 def step (st : State) (line : String) : State × String :=
   let pure (o : String) : State × String := (st, o)
@@ -281,22 +298,28 @@ def step (st : State) (line : String) : State × String :=
       | .ok t => ({ st with table := some t }, "ok " ++ showTable t)
       | .error e => pure (errS e)
     | none => pure (errS .valueError)
-  | ["c_tr", complete, met, dna] =>
+  | ["c_tr", complete, met, dna] => pure (translateLine st.table complete met dna)
+  | ["c_tr2", complete, met, dna] => pure (translateLine st.table2 complete met dna)
+  | ["c_show"] => pure (match st.table with | some t => "ok " ++ showTable t | none => "ERR:notable")
+  | ["c_show2"] => pure (match st.table2 with | some t => "ok " ++ showTable t | none => "ERR:notable")
+  | ["c_derive_map", items] =>
     match st.table with
     | none => pure "ERR:notable"
     | some t =>
-      match nucNew Gen.C03.nucUnamb Gen.C03.nucAmb (stringToBytes dna) with
-      | .error e => pure (errS e)
-      | .ok s =>
-        if s.alph ≠ Gen.C03.nucUnamb then pure (errS .alphabetError)
-        else if complete == "1" then
-          pure (showE ((translateComplete t s.codes).map fun p =>
-            bytesToString (p.filterMap (prot[·]?))))
-        else
-          match indexOf? prot 42, indexOf? prot 77 with
-          | some stopC, some metC =>
-            pure (showE ((translateOrfs t stopC metC (met == "1") s.codes).map showOrfs))
-          | _, _ => pure (errS .alphabetError)
+      let dict : List (List Nat × Nat) := (toks items).map fun it =>
+        match it.splitOn "=" with
+        | [k, v] => (stringToBytes k, match v.toList with | [c] => c.toNat | _ => 0)
+        | _ => ([], 0)
+      match t.withMappings nuc prot dict with
+      | .ok t' => ({ st with table2 := some t' }, "ok " ++ showTable t')
+      | .error e => ({ st with table2 := none }, errS e)
+  | ["c_derive_starts", starts] =>
+    match st.table with
+    | none => pure "ERR:notable"
+    | some t =>
+      match t.withStarts nuc ((toks starts).map stringToBytes) with
+      | .ok t' => ({ st with table2 := some t' }, "ok " ++ showTable t')
+      | .error e => ({ st with table2 := none }, errS e)
   | ["c_get", codon] =>
     match st.table with
     | none => pure "ERR:notable"
